@@ -3,21 +3,32 @@ SPEC = dict(
     prop="C43",
     proof_module="SimbodyProofs.C43",
     sources=["SimbodyModel/Proto.lean", "SimbodyModel/C43.lean", "SimbodyProofs/C43.lean", "Drivers/C43.lean"],
-    n=dict(quick=60, thorough=1200),
+    n=dict(quick=50, thorough=1200),
     rtol=1e-9, atol=1e-12,
     rule="random chains/trees of 2..5(6) bodies (pin / slider / universal / ball / free), 40% with a loop constraint "
          "(ball or rod) satisfied at a random reference configuration; ~70% Assembler runs (assemble 70% / track 30%; "
          "Markers and/or OrientationSensors generated from the reachable reference configuration, sometimes noisy / zero "
          "weight / NaN observation; locked mobilizers, locked q's, q ranges that contain or exclude the reference, "
-         "sinusoidal prescribed motion; infinity or RMS error norm; tolerance 1e-4..1e-8), 10% ObservedPointFitter, 20% "
-         "LocalEnergyMinimizer; each case in a forked child with a time limit; distinct = distinct records",
-    partial="the optimizers behind Assembler / ObservedPointFitter / LocalEnergyMinimizer are vendored and not modelled; "
-            "modelled and tied exactly: the success / failure / revert / short-circuit logic of assemble() and track() "
-            "(predicts success and the returned value bit-exactly from the observed error and goal values), the free-q "
-            "partition and ranges, Markers / OrientationSensors goal formulas and the Assembler's weighted sum, the value "
-            "ObservedPointFitter returns; the returned states are decided by the exact-rational contract acceptAsm (proved "
-            "sound) and the implementation-side predicates; 'goal no worse than at the start' is a theorem for assemble() "
-            "from a feasible start and only measured for track() (no revert rule in the code); 'exact goals reach zero' uses "
-            "1e-7 (accuracy 1e-6) / 1e-4 (default accuracy 1e-3) and is claimed for starts within 0.12 of the reachable configuration; LocalEnergyMinimizer is covered by its predicate only",
+         "sinusoidal prescribed motion with the incoming q on or OFF its prescribed value; a goal with a wrong-sign gradient "
+         "(1/8, forces optimizer exceptions and worse results); a dedicated class (1/12) loop + prescribed-off + wrong-sign "
+         "gradient started feasible, which reaches the revert branch after prescribeQ; infinity or RMS error norm; tolerance "
+         "1e-4..1e-8), 10% ObservedPointFitter and 20% LocalEnergyMinimizer, each 40% with a loop constraint and 30% with a "
+         "mobilizer locked in the State; one all-NaN-observations case per run; each case in a forked child with a time "
+         "limit; every record carries (seed, case index) and --mode replay re-runs the implementation; distinct = distinct records",
+    partial="(i) proved about simbody's own code, executed by the driver and tied bit-exactly: the success / failure / revert / "
+            "short-circuit logic of assemble() and track() (assemble_ok_cases: complete case analysis; "
+            "assemble_ok_held_error_within_tol is a fact about the VARIABLE tolAchieved, which is the measured error of the state left "
+            "behind only when the revert rule did not fire (assemble_ok_measured); assemble_ok_not_worse from a feasible start; "
+            "track_may_worsen: no such rule in track()), the free-q partition (mem_freeQs, freeQs_sorted), the Markers / "
+            "OrientationSensors goal algebra (weightedGoal_nonneg, *_eq_zero_iff) and the value ObservedPointFitter returns (wrms_sq).  "
+            "(ii) predicate-only (fresh-State recomputation by the harness + exact-rational contract acceptAsm; contract_sound / "
+            "qOK_sound are unfoldings that constrain no optimizer): constraints within tolerance on success; locked / prescribed q's "
+            "at their values; ranges (1e-8 relaxation); returned goal = goal of the state; goal not worse (assemble from a feasible "
+            "start: also (i) for the decision logic; track: measured only); exactly achievable goals reach <= 1e-7 at accuracy 1e-6 "
+            "from starts within 0.12 of the reachable configuration; OPF: returned error = weighted RMS of the returned state, "
+            "exact targets fit to 1e-3, qerr <= 1e-4 with a loop, locked q's unchanged; LEM: PE not increased, qerr <= 1e-4 with a "
+            "loop, locked q's unchanged.  Floors: >= 70 % of the Assembler cases must report success, >= 70 % of OPF and >= 50 % of "
+            "LEM runs must return (a hang or exception is otherwise only a D tag).  (iii) not covered: the vendored optimizers; "
+            "prescribed motion for OPF / LEM; the default accuracy 1e-3 is only exercised on inexact goals",
     assumptions=["libm sqrt/acos are trusted (rotation-error angles are exported by the harness from Rotation::convertRotationToAngleAxis)"],
 )
